@@ -235,4 +235,20 @@ def load (v : Variant) (x : Ext) : PyM (Nat × Nat × Nat) := do
   if st.objs.isEmpty then .error (if v.emptyCheck then .FileFormatError else .ValueError)
   else .ok (roundUpMillion (st.objs.foldl max 0), st.objs.eraseDups.length, st.files.eraseDups.length)
 
+/-- `Document.__init__(filename)` after `_NumbersModel(path)` (= `load`) has returned: the eager construction of the
+    sheets and tables (`sheet_ids()`, `ItemsList(model, refs, Sheet)`, every `Table.__init__` reading its cells) is a
+    computation over the decoded objects, `build`, that may raise ANYTHING when an object the document needs is missing or
+    damaged (a `.iwa` member with broken framing is stored as a blob, so its objects are simply absent).  `docBoundary`:
+    the constructor translates what escapes that stage (library errors and Warnings pass unchanged). -/
+def openDocument {δ} (v : Variant) (docBoundary : Bool) (x : Ext) (build : Nat × Nat × Nat → PyM δ) : PyM δ :=
+  match load v x with
+  | .error e => .error e
+  | .ok st =>
+    match build st with
+    | .ok d => .ok d
+    | .error e =>
+      if !docBoundary then .error e
+      else if isLibraryError e || x.isWarning e then .error e
+      else .error .FileFormatError
+
 end NumbersModel.Loader
